@@ -285,22 +285,26 @@ static void op_epfixt(int argc, char **argv) {
 /* eps <variant> <P> <k> <Q> <m> : k*P + m*Q ; variant gen uses the generator for P */
 static void op_eps(int argc, char **argv) {
 	if (argc < 6) { fprintf(OUT, "bad-args\n"); return; }
-	const char *v = argv[1];
+	/* suffix .p / .q of the variant: the result object is the first / second point operand */
+	char v[32]; int al = 0;
+	snprintf(v, sizeof(v), "%s", argv[1]);
+	{ char *dot = strchr(v, '.'); if (dot) { al = dot[1] == 'p' ? 1 : (dot[1] == 'q' ? 2 : 0); *dot = 0; } }
 	int caught = 0;
 	ep_t p, q, c; bn_t k, m; raw_t r;
 	ep_null(p); ep_null(q); ep_null(c); ep_new(p); ep_new(q); ep_new(c); bn_null(k); bn_new(k); bn_null(m); bn_new(m);
 	ep_tok(p, argv[2]); raw_parse(&r, argv[3]); raw_to_bn(k, &r);
 	ep_tok(q, argv[4]); raw_parse(&r, argv[5]); raw_to_bn(m, &r);
+	ep_st *cc = al == 1 ? p : (al == 2 ? q : c);
 	RLC_TRY {
-		if (!strcmp(v, "sim")) ep_mul_sim(c, p, k, q, m);
-		else if (!strcmp(v, "basic")) ep_mul_sim_basic(c, p, k, q, m);
-		else if (!strcmp(v, "trick")) ep_mul_sim_trick(c, p, k, q, m);
-		else if (!strcmp(v, "inter")) ep_mul_sim_inter(c, p, k, q, m);
-		else if (!strcmp(v, "joint")) ep_mul_sim_joint(c, p, k, q, m);
-		else if (!strcmp(v, "gen")) ep_mul_sim_gen(c, k, q, m);
+		if (!strcmp(v, "sim")) ep_mul_sim(cc, p, k, q, m);
+		else if (!strcmp(v, "basic")) ep_mul_sim_basic(cc, p, k, q, m);
+		else if (!strcmp(v, "trick")) ep_mul_sim_trick(cc, p, k, q, m);
+		else if (!strcmp(v, "inter")) ep_mul_sim_inter(cc, p, k, q, m);
+		else if (!strcmp(v, "joint")) ep_mul_sim_joint(cc, p, k, q, m);
+		else if (!strcmp(v, "gen")) ep_mul_sim_gen(cc, k, q, m);
 		else { fprintf(OUT, "unknown-eps %s\n", v); return; }
 	} RLC_CATCH_ANY { caught = 1; }
-	if (take_err() || caught) fprintf(OUT, "err"); else ep_out(c);
+	if (take_err() || caught) fprintf(OUT, "err"); else ep_out(cc);
 	fputc('\n', OUT);
 }
 
